@@ -19,6 +19,7 @@ import (
 	"os"
 	"reflect"
 	"runtime"
+	"runtime/debug"
 	"sort"
 	"strconv"
 	"strings"
@@ -800,6 +801,8 @@ type ZK3 struct {
 	Q, R *ZInner
 }
 
+type ZRows struct{ Rows [][]*ZInner }
+
 func siC04Kinds(r *siReport) {
 	check := func(cn string, v interface{}, q, rr func(interface{}) *ZInner) {
 		out, err := siRoundTrip(v)
@@ -822,6 +825,41 @@ func siC04Kinds(r *siReport) {
 	x := &ZInner{9, "x"}
 	check("kinds/ptr-to-first-element-then-slice", &ZK1{P: &s[0], S: s, Q: x, R: x}, func(o interface{}) *ZInner { return o.(*ZK1).Q }, func(o interface{}) *ZInner { return o.(*ZK1).R })
 	check("kinds/slice-then-ptr-to-first-element", &ZK2{S: s, P: &s[0], Q: x, R: x}, func(o interface{}) *ZInner { return o.(*ZK2).Q }, func(o interface{}) *ZInner { return o.(*ZK2).R })
+	// a row that occurs twice in a list of lists (typed and, without list names, untyped): both occurrences come
+	// back with the row's elements, as one list
+	{
+		row := []*ZInner{{1, "a"}, {2, "b"}}
+		other := []*ZInner{{3, "c"}}
+		for _, untyped := range []bool{false, true} {
+			cn := fmt.Sprintf("kinds/shared-row-in-list-of-lists/untyped=%v", untyped)
+			v := &ZRows{Rows: [][]*ZInner{row, other, row}}
+			var out interface{}
+			var err error
+			if untyped {
+				out, err = siRoundTripUntyped(v)
+			} else {
+				out, err = siRoundTrip(v)
+			}
+			if err != nil {
+				r.fail(cn, err.Error())
+				continue
+			}
+			o, ok := out.(*ZRows)
+			if !ok || len(o.Rows) != 3 || len(o.Rows[0]) != 2 || len(o.Rows[2]) != 2 || len(o.Rows[1]) != 1 || o.Rows[0][0] != o.Rows[2][0] || o.Rows[0][1] != o.Rows[2][1] || o.Rows[2][1].A != 2 {
+				r.fail(cn, fmt.Sprintf("rows came back as %v", out))
+				continue
+			}
+			r.ok(cn)
+		}
+		top := [][]*ZInner{row, other, row}
+		if out, err := siRoundTrip(top); err != nil {
+			r.fail("kinds/shared-row-top-level", err.Error())
+		} else if o, ok := out.([][]*ZInner); !ok || len(o) != 3 || len(o[2]) != 2 || o[0][0] != o[2][0] {
+			r.fail("kinds/shared-row-top-level", fmt.Sprintf("rows came back as %v", out))
+		} else {
+			r.ok("kinds/shared-row-top-level")
+		}
+	}
 	// a cycle whose outermost container is a list (nobody assigns that list to a field)
 	{
 		n := &ZS{ID: 1}
@@ -1592,7 +1630,12 @@ func siC13(r *siReport) {
 
 // ---------------------------------------------------------------- C14: hostile input
 
+type ZBag map[string][]ZBag
+type ZEntry *ZMutPtrA
+
 func siC14(r *siReport) {
+	// a runaway recursion must end this process quickly (it is reported as a crash of the case that was running)
+	debug.SetMaxStack(256 << 20)
 	rng := rand.New(rand.NewSource(siSeed()))
 	zoo := siZoo(rng, 5)
 	zoo["graph"] = func() interface{} { a := &ZG{ID: 1}; a.A = a; a.L = []*ZG{a, nil}; return a }()
@@ -1688,6 +1731,9 @@ func siC14(r *siReport) {
 	try("cyclic/map-into-self-typed-map-field", []byte{0x43, 0x01, 0x48, 0x91, 0x04, 0x76, 0x61, 0x6c, 0x73, 0x60, 0x48, 0x01, 0x61, 0x51, 0x91, 0x5a}, map[string]reflect.Type{"H": reflect.TypeOf(struct{ Vals ZNestMap }{})})
 	try("cyclic/map-into-self-in-typed-list-field", []byte{0x43, 0x01, 0x48, 0x91, 0x04, 0x76, 0x61, 0x6c, 0x73, 0x60, 0x79, 0x48, 0x01, 0x61, 0x51, 0x92, 0x5a}, map[string]reflect.Type{"H": reflect.TypeOf(struct{ Vals []ZNestMap }{})})
 	try("cyclic/list-in-map-into-self-typed-field", []byte{0x43, 0x01, 0x48, 0x91, 0x04, 0x76, 0x61, 0x6c, 0x73, 0x60, 0x79, 0x48, 0x01, 0x61, 0x51, 0x91, 0x5a}, map[string]reflect.Type{"H": reflect.TypeOf(struct{ Vals []map[string][]ZNestMap }{})})
+	try("cyclic/map-in-list-in-map-into-typed-field", []byte{0x43, 0x01, 0x48, 0x91, 0x04, 0x76, 0x61, 0x6c, 0x73, 0x60, 0x48, 0x01, 0x6b, 0x79, 0x51, 0x91, 0x5a}, map[string]reflect.Type{"H": reflect.TypeOf(struct{ Vals ZBag }{})})
+	try("cyclic/list-in-map-in-list-into-typed-field", []byte{0x43, 0x01, 0x48, 0x91, 0x04, 0x76, 0x61, 0x6c, 0x73, 0x60, 0x79, 0x48, 0x01, 0x6b, 0x51, 0x91, 0x5a}, map[string]reflect.Type{"H": reflect.TypeOf(struct{ Vals []ZBag }{})})
+	try("selfptr/field-of-pointer-type-leading-into-a-pointer-loop", []byte{0x43, 0x01, 0x48, 0x91, 0x01, 0x70, 0x60, 0x4e}, map[string]reflect.Type{"H": reflect.TypeOf(struct{ P ZEntry }{})})
 	try("selfptr/field-of-mutually-pointing-types", []byte{0x43, 0x01, 0x48, 0x91, 0x01, 0x70, 0x60, 0x4e}, map[string]reflect.Type{"H": reflect.TypeOf(struct{ P ZMutPtrA }{})})
 	try("selfptr/field-of-self-pointing-type", []byte{0x43, 0x01, 0x51, 0x91, 0x01, 0x66, 0x60, 0x90}, map[string]reflect.Type{"Q": reflect.TypeOf(ZSelfPtrHolder{})})
 	// a list referenced many times into fields of another slice type: the work must not be (elements x references)
@@ -1841,6 +1887,19 @@ type ZOwnNamedEmb struct {
 
 func (ZOwnNamedEmb) HessianCodecName() string { return "com.zoo.OwnNamedEmb" }
 
+type ZTable map[string]int32
+
+func (ZTable) HessianCodecName() string { return "com.zoo.Table" }
+
+type ZNamedList []int32
+
+func (ZNamedList) HessianCodecName() string { return "com.zoo.NamedList" }
+
+type ZTableHolder struct {
+	T ZTable
+	L ZNamedList
+}
+
 type ZMutPtrA *ZMutPtrB
 type ZMutPtrB *ZMutPtrA
 type ZPtrToOwnList *[]ZPtrToOwnList
@@ -1964,6 +2023,15 @@ func siC16(r *siReport) {
 			r.ok("typemapof-time-behind-" + name)
 		}
 	}
+	// a named map or list type that declares a custom name keeps it when the sample holds nil there
+	for name, v := range map[string]interface{}{"zero-struct": ZTableHolder{}, "nil-pointer": (*ZTableHolder)(nil), "empty-list": []ZTable{}, "populated": &ZTableHolder{T: ZTable{"a": 1}, L: ZNamedList{1}}} {
+		tm, nm := ExtractTypeNameMap(v)
+		if nm["ZTable"] != "com.zoo.Table" || tm["com.zoo.Table"] != reflect.TypeOf(ZTable{}) {
+			r.fail("named-container-name/"+name, fmt.Sprintf("name map gives %q, type map %v", nm["ZTable"], tm["com.zoo.Table"]))
+		} else {
+			r.ok("named-container-name/" + name)
+		}
+	}
 	// a struct with its own custom name that embeds a custom-named struct keeps its own name
 	{
 		_, nm := ExtractTypeNameMap(&ZOwnNamedEmb{})
@@ -1975,7 +2043,7 @@ func siC16(r *siReport) {
 	}
 	// named list, map and pointer types that contain themselves (no struct in between)
 	for name, typ := range map[string]reflect.Type{"nest-list": reflect.TypeOf(ZNestList{}), "nest-map": reflect.TypeOf(ZNestMap{}), "self-pointer-field": reflect.TypeOf(ZSelfPtrHolder{}),
-		"mutual-pointers": reflect.TypeOf(struct{ P ZMutPtrA }{}), "pointer-to-own-list": reflect.TypeOf(struct{ P ZPtrToOwnList }{}), "nil-embedded-named": reflect.TypeOf(ZNilEmbNamed{})} {
+		"mutual-pointers": reflect.TypeOf(struct{ P ZMutPtrA }{}), "pointer-into-pointer-loop": reflect.TypeOf(struct{ P ZEntry }{}), "pointer-to-own-list": reflect.TypeOf(struct{ P ZPtrToOwnList }{}), "nil-embedded-named": reflect.TypeOf(ZNilEmbNamed{})} {
 		done := make(chan struct{})
 		go func() { TypeMapOf(typ); ExtractTypeNameMap(reflect.New(typ).Interface()); close(done) }()
 		select {
@@ -1986,6 +2054,197 @@ func siC16(r *siReport) {
 		}
 	}
 	r.done("6 named list/map/pointer types that contain themselves or each other, a struct embedding a nil pointer to a custom-named type; 8 zoo types (recursive, mutually recursive, slices of slices, maps of pointers, custom-named with value and pointer receiver, embedding a custom-named struct, a type named like one inside time.Time) x witnesses {zero value, populated} x every other witness round-tripped with the extracted maps")
+}
+
+// ---------------------------------------------------------------- C17: the pool against a set model, every short history
+type zPoolObj struct{ id int }
+
+func siC17(r *siReport) {
+	maxLen := siScale(7, 9)
+	for size := 0; size <= 3; size++ {
+		// a history is a sequence of operations: 0 = Get, k>0 = Return of the k-th object currently held
+		var hist []int
+		var run func() bool
+		run = func() bool {
+			made := 0
+			p := newPool(size, func() interface{} { made++; return &zPoolObj{made} })
+			var held []*zPoolObj
+			idle := map[*zPoolObj]bool{}
+			cn := fmt.Sprintf("pool/size=%d/%v", size, hist)
+			step := func(f func()) bool {
+				done := make(chan struct{})
+				go func() { f(); close(done) }()
+				select {
+				case <-done:
+					return true
+				case <-time.After(5 * time.Second):
+					r.fail(cn, "operation blocked")
+					return false
+				}
+			}
+			for _, op := range hist {
+				if op == 0 {
+					before := made
+					var o *zPoolObj
+					if !step(func() { o, _ = p.Get().(*zPoolObj) }) {
+						return false
+					}
+					if o == nil {
+						r.fail(cn, "Get returned no object")
+						return false
+					}
+					for _, h := range held {
+						if h == o {
+							r.fail(cn, fmt.Sprintf("object %d handed out while it is held", o.id))
+							return false
+						}
+					}
+					if made > before {
+						if len(idle) > 0 {
+							// (allowed by the property only when the pool is empty)
+							r.fail(cn, "a fresh object was made although the pool held returned ones")
+							return false
+						}
+						if o.id != made {
+							r.fail(cn, "Get made an object and handed out another")
+							return false
+						}
+					} else {
+						if !idle[o] {
+							r.fail(cn, fmt.Sprintf("object %d handed out a second time (or never returned)", o.id))
+							return false
+						}
+						delete(idle, o)
+					}
+					held = append(held, o)
+				} else {
+					o := held[op-1]
+					held = append(held[:op-1:op-1], held[op:]...)
+					if !step(func() { p.Return(o) }) {
+						return false
+					}
+					if len(idle) < size {
+						idle[o] = true
+					}
+				}
+			}
+			// drain: everything that was kept comes out once, and not more than size objects were kept
+			kept := 0
+			for {
+				before := made
+				var o *zPoolObj
+				if !step(func() { o, _ = p.Get().(*zPoolObj) }) {
+					return false
+				}
+				if made > before {
+					break
+				}
+				kept++
+				if o == nil || !idle[o] {
+					r.fail(cn, "the drained pool hands out an object it should not hold (dropped, held or handed out before)")
+					return false
+				}
+				delete(idle, o)
+				if kept > size {
+					r.fail(cn, "more objects retained than the configured size")
+					return false
+				}
+			}
+			if len(idle) != 0 {
+				r.fail(cn, fmt.Sprintf("%d returned objects were lost although there was room", len(idle)))
+				return false
+			}
+			r.ok(cn)
+			return true
+		}
+		var rec func(heldN int)
+		rec = func(heldN int) {
+			if !run() || len(hist) >= maxLen {
+				return
+			}
+			hist = append(hist, 0)
+			rec(heldN + 1)
+			hist = hist[:len(hist)-1]
+			for k := 1; k <= heldN; k++ {
+				hist = append(hist, k)
+				rec(heldN - 1)
+				hist = hist[:len(hist)-1]
+			}
+		}
+		rec(0)
+	}
+	// the library's pools: fresh objects are usable and own their default maps; a given map is the one used
+	{
+		type T struct{ A int32 }
+		nm := map[string]string{}
+		tm := map[string]reflect.Type{}
+		for _, withMaps := range []bool{false, true} {
+			cn := fmt.Sprintf("pools/maps-given=%v", withMaps)
+			var ep, dp, sp Pool
+			if withMaps {
+				ep, dp, sp = NewEncoderPool(2, nm), NewDecoderPool(2, tm), NewSerializerPool(2, tm, nm)
+			} else {
+				ep, dp, sp = NewEncoderPool(2, nil), NewDecoderPool(2, nil), NewSerializerPool(2, nil, nil)
+			}
+			e1, e2 := ep.Get().(*Encoder), ep.Get().(*Encoder)
+			d1, d2 := dp.Get().(*Decoder), dp.Get().(*Decoder)
+			s1, s2 := sp.Get().(Serializer), sp.Get().(Serializer)
+			ok := true
+			func() {
+				defer func() {
+					if x := recover(); x != nil {
+						r.fail(cn, fmt.Sprintf("a fresh pooled object is not usable: %v", x))
+						ok = false
+					}
+				}()
+				if e1 == e2 || d1 == d2 || s1 == s2 || e1.nameMap == nil || d1.typMap == nil {
+					r.fail(cn, "fresh objects are not distinct or lack their maps")
+					ok = false
+					return
+				}
+				same := func(a, b interface{}) bool { return reflect.ValueOf(a).Pointer() == reflect.ValueOf(b).Pointer() }
+				if withMaps {
+					if !same(e1.nameMap, nm) || !same(e2.nameMap, nm) || !same(d1.typMap, tm) || !same(d2.typMap, tm) {
+						r.fail(cn, "a pooled object does not use the map the pool was given")
+						ok = false
+						return
+					}
+				} else if same(e1.nameMap, e2.nameMap) || same(d1.typMap, d2.typMap) {
+					r.fail(cn, "two fresh objects of a pool made without maps share one default map")
+					ok = false
+					return
+				}
+				e1.RegisterNameType("T", "com.zoo.T")
+				d1.RegisterType("com.zoo.T", reflect.TypeOf(T{}))
+				if !withMaps {
+					if _, has := e2.nameMap["T"]; has {
+						r.fail(cn, "a registration on one fresh encoder is seen by another")
+						ok = false
+						return
+					}
+				}
+				var buf bytes.Buffer
+				if err := e1.WriteTo(&buf, &T{7}); err != nil {
+					r.fail(cn, "encode with a fresh pooled encoder: "+err.Error())
+					ok = false
+					return
+				}
+				if out, err := d1.Decode(buf.Bytes()); err != nil || !siEqual(out, &T{7}) {
+					r.fail(cn, fmt.Sprintf("decode with a fresh pooled decoder: %v %v", out, err))
+					ok = false
+					return
+				}
+				if bs, err := s1.ToBytes(int32(5)); err != nil || len(bs) != 1 {
+					r.fail(cn, fmt.Sprintf("fresh pooled serializer: %v %v", bs, err))
+					ok = false
+				}
+			}()
+			if ok {
+				r.ok(cn)
+			}
+		}
+	}
+	r.done(fmt.Sprintf("every history of Get/Return operations up to length %d on pools of size 0..3 against a set model (who holds what, what is idle, nothing kept beyond the size, nothing handed out twice, no operation blocks); fresh objects of the three library pools with and without maps", maxLen))
 }
 
 func TestGovcStandin(t *testing.T) {
@@ -2014,6 +2273,8 @@ func TestGovcStandin(t *testing.T) {
 		siC15(r)
 	case "C16":
 		siC16(r)
+	case "C17":
+		siC17(r)
 	default:
 		fmt.Println("STANDIN-SUMMARY", id, "cases=0 distinct=0 fail=0 bound=none")
 	}
